@@ -235,7 +235,7 @@ def check_c05(rep):
             ps = "%s_8_%d_%s" % (sch, 0 if sch == "ckks" else 17, bits)
             run_instance(rep, "chain%d_%s" % (k - 1, sch), ps, actions=CHAIN, depth=4 if k > 3 else 5, ct_slots=("c1", "c2"), pt_slots=("p1",),
                          scales=(20, 30), extra_sample=2000 if quick else 20000, deadline=10.0)
-    mixed = ["30,30,50,50", "20,40,60,60", "60,30,45,60"] if quick else ["30,30,50,50", "20,40,60,60", "60,30,45,60", "25,25,25,60,60", "50,20,50,20,60", "17,23,31,41,53,61"]
+    mixed = ["30,30,50,50", "20,40,60,60", "60,30,45,60"] if quick else ["30,30,50,50", "20,40,60,60", "60,30,45,60", "25,25,25,60,60", "50,20,50,20,60", "17,23,31,41,53,60"]
     for i, bits in enumerate(mixed):
         for sch in ("bfv", "bgv", "ckks"):
             ps = "%s_8_%d_%s" % (sch, 0 if sch == "ckks" else 17, bits)
